@@ -98,6 +98,8 @@ def _ladder(di: int, si: int, create_db: bool, create_sc: bool, db_exists: bool,
     SC = schema.upper() if schema else None
     if conn.database != D or conn.schema != SC:
         return False, "reported names"
+    if conn._duck_conn.in_tx:
+        return False, "connect() handed out a session with a transaction left open"
     # what may have been created
     exp_db_after = db_exists or (create_db and D is not None)
     created_db = exp_db_after and not db_exists
@@ -264,6 +266,12 @@ def _real_ladder(a: dict):
         cur_db, cur_sc = conn._duck_conn.execute("select current_database(), current_schema()").fetchone()
         if conn.schema_set and (cur_db.upper(), cur_sc.upper()) != (D, SC):
             problems.append(f"engine context {cur_db}.{cur_sc}")
+        try:
+            # a fresh session is outside a transaction: BEGIN must be possible (DuckDB refuses a nested one)
+            conn._duck_conn.execute("begin")
+            conn._duck_conn.execute("rollback")
+        except Exception as e:  # noqa: BLE001
+            problems.append(f"connect() left a transaction open: {type(e).__name__}: {str(e)[:80]}")
         fs.duck_conn.close()
         if a["with_path"]:
             import os
